@@ -802,6 +802,128 @@ def run_fourier(name, ops):
 
 
 # ---------------------------------------------------------------------------------------------
+# the wavelength key (model: lean/HcipyVerif/Lemmas/WavelengthKey.lean)
+
+def exact_wl_key(lam):
+    """round(log(lam)/log(b)) for the exact float `lam` and b = the double 1 + 4503600/2^52, evaluated
+    with 60 digits.  Returns (key, slack) where slack is the distance of the quotient from the nearest
+    half-integer (the rounding decision is not compared when the slack is tiny)."""
+    import mpmath as mp
+    with mp.workdps(60):
+        b = mp.mpf(1) + mp.mpf(4503600) / mp.mpf(2) ** 52
+        x = mp.log(mp.mpf(lam)) / mp.log(b)
+        fl = mp.floor(x)
+        frac = x - fl
+        return int(fl) + (1 if frac > mp.mpf('0.5') else 0), float(abs(frac - mp.mpf('0.5')))
+
+
+def check_wavelength_keys(ctx):
+    import math
+    import hcipy as hp
+    from fractions import Fraction
+    if Fraction(1 + 1e-9) != 1 + Fraction(4503600, 2 ** 52):
+        raise MachineryError('1 + 1e-9 is not the double assumed by theorem base_double_ok')
+    probe = hp.Magnifier(2.0)
+
+    def real_key(lam):
+        k = probe._get_cache_keys(None, None, lam)      # private: guarded by the caller
+        if not (isinstance(k, list) and k and isinstance(k[0], tuple) and len(k[0]) == 3):
+            raise ValueError('unexpected key shape %r' % (k,))
+        return int(k[0][2])
+
+    def w_scalar(wavelength):
+        return np.float64(0.5 + 0.25 * wavelength)
+    grid = hp.make_pupil_grid(4, 1.0)
+    n = ctx.scale(3000, 40000)
+    n_inst = ctx.scale(300, 3000)
+    issues = 0
+    for j in range(n):
+        style = j % 4
+        if style == 0:
+            lam = float(10.0 ** ctx.rng.uniform(-8, 2))
+        elif style == 1:
+            lam = float(ctx.rng.integers(1, 4096)) / 1024.0 * 10.0 ** int(ctx.rng.integers(-7, 1))
+        elif style == 2:
+            lam = float(1.0 + ctx.rng.uniform(-1e-5, 1e-5))
+        else:
+            lam = float(ctx.rng.uniform(0.3, 3.0) * 1e-6)
+        ctx.count('wl:style%d' % style)
+        # a partner exactly at the property's bound: the least double >= lam * (1 + 1e-6)
+        far = lam * (1 + 1e-6)
+        while Fraction(far) < Fraction(lam) * (1 + Fraction(1, 10 ** 6)):
+            far = math.nextafter(far, math.inf)
+        near = lam * (1 + 1e-10)
+        while Fraction(near) > Fraction(lam) * (1 + Fraction(1, 10 ** 10)):
+            near = math.nextafter(near, 0.0)
+        nine = lam * (1 + 1e-9)
+        three = lam * (1 + 3e-9)
+        try:
+            keys = {name: real_key(v) for name, v in (('lam', lam), ('far', far), ('near', near), ('nine', nine), ('three', three))}
+        except Exception as e:
+            issues += 1
+            if issues == 1:
+                ctx.disagree('wavelength-key', {'issue': 'cannot read the wavelength key of the implementation: %r' % (e,)})
+            keys = None
+        if keys is not None:
+            ctx.traces_validated += 1
+            for name, v in (('lam', lam), ('far', far)):
+                ek, slack = exact_wl_key(v)
+                if slack < 1e-4:
+                    ctx.boundary_skipped += 1
+                elif ek != keys[name]:
+                    ctx.disagree('wavelength-key', {'wavelength': v, 'code': keys[name], 'model': ek})
+            # consequences proved in Properties/C05.lean
+            if keys['far'] - keys['lam'] < 498:
+                ctx.disagree('wavelength-key', {'theorem': 'wavelength_key_separates', 'wavelengths': [lam, far],
+                                                'keys': [keys['lam'], keys['far']]})
+            if abs(keys['near'] - keys['lam']) > 1:
+                ctx.disagree('wavelength-key', {'theorem': 'wavelength_key_stable', 'wavelengths': [lam, near],
+                                                'keys': [keys['lam'], keys['near']]})
+            if keys['three'] == keys['lam']:
+                ctx.disagree('wavelength-key', {'theorem': 'wavelength_key_shared_close', 'wavelengths': [lam, three],
+                                                'keys': [keys['lam'], keys['three']]})
+            ctx.count('wl:key-difference-at-1e-9:%d' % (keys['nine'] - keys['lam']))
+        # the property's clause on the public interface: wavelengths >= 1e-6 apart never share an instance
+        if j < n_inst:
+            ctx.case(None, nontrivial_key=('wl-pair', j))
+            el = hp.Apodizer(w_scalar)
+            try:
+                a = el.get_instance_data(grid, None, lam)
+                b = el.get_instance_data(grid, None, far)
+                a2 = el.get_instance_data(grid, None, lam)
+                bad = None
+                if a is b:
+                    bad = 'one instance serves both wavelengths'
+                elif a2 is not a:
+                    bad = 'the instance of the first wavelength was not found again'
+                elif not (np.asarray(b.apodization) == w_scalar(far)) or not (np.asarray(a.apodization) == w_scalar(lam)):
+                    bad = 'the instance holds the parameter evaluated at another wavelength'
+            except Exception as e:
+                ctx.violation('raises %s Apodizer' % type(e).__name__, 'get_instance_data at wavelength %r or %r raised %r' % (lam, far, e),
+                              {'wavelengths': [lam, far]})
+                continue
+            if bad:
+                ctx.violation('wavelengths-1e-6-apart-share-instance', 'wavelengths %r and %r (ratio >= 1 + 1e-6): %s' % (lam, far, bad),
+                              {'wavelengths': [lam, far]})
+
+
+def replay_wavelengths(case):
+    import hcipy as hp
+    lam, far = case['wavelengths']
+
+    def w_scalar(wavelength):
+        return np.float64(0.5 + 0.25 * wavelength)
+    el = hp.Apodizer(w_scalar)
+    grid = hp.make_pupil_grid(4, 1.0)
+    a = el.get_instance_data(grid, None, lam)
+    b = el.get_instance_data(grid, None, far)
+    ok = (a is not b) and (el.get_instance_data(grid, None, lam) is a) and bool(np.asarray(b.apodization) == w_scalar(far))
+    if not ok:
+        print('  fails: wavelengths %r and %r share an instance or hold a wrong parameter' % (lam, far))
+    return ok
+
+
+# ---------------------------------------------------------------------------------------------
 
 def check_case(ctx, case, lines_out):
     spec = spec_by_name(case['spec'])
@@ -866,7 +988,6 @@ def run(ctx):
                 'and one creation; distinct by (element, style, maxN, #ops, #distinct requests). Fourier objects: shared vs '
                 'fresh object on random forward/backward histories with alternating dtypes and tensor shapes.')
     ctx.assumptions += ['xxhash of distinct test grids does not collide',
-                        'the wavelength key int(round(log(wl)/log(1+1e-9))) separates the test wavelengths (checked)',
                         'Grid.__hash__ ignores weights (C10); all test grids carry default weights']
     un = uncovered_classes()
     ctx.extra['agnostic_classes_not_covered'] = un
@@ -930,6 +1051,8 @@ def run(ctx):
                  nontrivial_key=(case['spec'], case['style'], case['maxN'], len(case['ops']), len(reqs)) if nontrivial else None)
     compare_with_model(ctx, batch)
 
+    check_wavelength_keys(ctx)
+
     # Fourier objects
     O = fourier_objects()
     nf = ctx.scale(8, 100)
@@ -969,6 +1092,12 @@ def run(ctx):
 
 
 def replay(ctx, case):
+    if 'wavelengths' in case:
+        try:
+            return replay_wavelengths(case)
+        except Exception as e:
+            print('  fails: raises %r' % (e,))
+            return False
     if 'fourier' in case:
         bad, _ = run_fourier(case['fourier'], case['ops'])
         if bad:
